@@ -15,7 +15,7 @@ use std::path::PathBuf;
 pub static SPEC: PropSpec = PropSpec {
     id: "C16",
     level: "exploration",
-    rule: "projects: 40 scenario families (incl. a foreign trait / an inherent impl for a foreign generic type applied to a local type, in Main and in a library) instantiated over package names drawn from {Geo, GeoShapes, Lib, LibX, P1, P10, Ab, Abc, Util, MainUtil, Core, Main..} so that implementing / using packages are proper prefixes of owners and vice versa: impl of a trait for a type placed in the type's package, the trait's package (legal), a third package, Main (orphans), twice in one package across files, with one or both headers qualifying the trait by the package's own name (duplicates), inherent impl on a foreign type; a package-qualified use without import in 14 syntactic positions (inherent method / static function / trait method reached by a path through the package's type or trait, let annotation, closure-parameter annotation, call, type in signature, struct literal, struct pattern, enum constructor, enum pattern, dyn type, impl header, generic bound) in Main and in the second file of a library whose first file does import; transitive use; import of a missing package; package declaration that differs from the directory; import cycles of length 1-3; equally named types with impls of one trait in two packages; each accepted project also with decoy packages (same item names, own impls) added and imported. expected: accept + exact stdout, or reject without internal error. non-trivial: every scenario instance; distinct by source hash",
+    rule: "projects: 40 scenario families (incl. a foreign trait / an inherent impl for a foreign generic type applied to a local type, in Main and in a library) instantiated over package names drawn from {Geo, GeoShapes, Lib, LibX, P1, P10, Ab, Abc, Util, MainUtil, Core, Main..} so that implementing / using packages are proper prefixes of owners and vice versa: impl of a trait for a type placed in the type's package, the trait's package (legal), a third package, Main (orphans), twice in one package across files, with one or both headers qualifying the trait by the package's own name (duplicates), inherent impl on a foreign type; a package-qualified use without import in 16 syntactic positions (constructor pattern / struct pattern as the only qualified name, inherent method / static function / trait method reached by a path through the package's type or trait, let annotation, closure-parameter annotation, call, type in signature, struct literal, struct pattern, enum constructor, enum pattern, dyn type, impl header, generic bound) in Main and in the second file of a library whose first file does import; transitive use; import of a missing package; package declaration that differs from the directory; import cycles of length 1-3; equally named types with impls of one trait in two packages; each accepted project also with decoy packages (same item names, own impls) added and imported. expected: accept + exact stdout, or reject without internal error. non-trivial: every scenario instance; distinct by source hash",
     eval_counter: "scenarios",
     assumptions: &["observed through the whole-program entry point (C14 checks that check/build/link agrees with it); behaviour through gomini"],
     crash_is_violation: false,
@@ -242,7 +242,10 @@ fn scenarios(rng: &mut Rng) -> Vec<Scenario> {
         out.push(Scenario { family: "inherent-impl-on-foreign-type", proj: p, expect: Expect::Reject });
     }
     // 9. uses without import, in Main (the package exists and is imported by another library)
-    let use_forms: [(&str, String); 14] = [
+    let use_forms: [(&str, String); 16] = [
+        // constructor / struct patterns as the only qualified names (the scrutinee comes from a function of the importing file)
+        ("enum-pattern-only", format!("fn probe() -> int32 {{ match MKE {{ {}::E::A => 1, {}::E::B(k) => k }} }}\n", d, d)),
+        ("struct-pattern-only", format!("fn probe() -> int32 {{ match MKD {{ {}::S {{ v: w }} => w }} }}\n", d)),
         // static member paths through a type / trait of the package: the only qualified name in the text
         ("inherent-method-path", format!("fn probe() -> int32 {{ {}::S::get(MKD) }}\n", d)),
         ("inherent-static-path", format!("fn probe() -> int32 {{ {}::S::zero() }}\n", d)),
@@ -264,23 +267,23 @@ fn scenarios(rng: &mut Rng) -> Vec<Scenario> {
         let mut p = Proj::new();
         trait_pkg(&mut p, t, &[], "");
         type_pkg(&mut p, d, &[t], &impl_text(t, d, false, true, k));
-        p.file(p3, "lib.gom", &[t, d], &format!("fn g(x: int32) -> int32 {{ x }}\nfn mkd() -> {}::S {{ {}::mk(1) }}\n", d, d));
-        p.file("Main", "main.gom", &[p3], &format!("{}\nfn main() {{\n    let _ = string_println(int32_to_string({}::g(1)));\n    ()\n}}\n", text.replace("MKD", &format!("{}::mkd()", p3)), p3));
+        p.file(p3, "lib.gom", &[t, d], &format!("fn g(x: int32) -> int32 {{ x }}\nfn mkd() -> {}::S {{ {}::mk(1) }}\nfn mke() -> {}::E {{ {}::E::A }}\n", d, d, d, d));
+        p.file("Main", "main.gom", &[p3], &format!("{}\nfn main() {{\n    let _ = string_println(int32_to_string({}::g(1)));\n    ()\n}}\n", text.replace("MKD", &format!("{}::mkd()", p3)).replace("MKE", &format!("{}::mke()", p3)), p3));
         out.push(Scenario { family: leak(format!("unimported-use-in-main:{}", form)), proj: p, expect: Expect::Reject });
         // 9b. in the second file of a library whose first file imports
         let mut p = Proj::new();
         trait_pkg(&mut p, t, &[], "");
         type_pkg(&mut p, d, &[t], &impl_text(t, d, false, true, k));
-        p.file(p3, "a_first.gom", &[t, d], &format!("fn g(x: int32) -> int32 {{ {}::f(x) + {}::f(x) }}\nfn mkd() -> {}::S {{ {}::mk(1) }}\n", t, d, d, d));
-        p.file(p3, "b_second.gom", &[], &text.replace("MKD", "mkd()"));
+        p.file(p3, "a_first.gom", &[t, d], &format!("fn g(x: int32) -> int32 {{ {}::f(x) + {}::f(x) }}\nfn mkd() -> {}::S {{ {}::mk(1) }}\nfn mke() -> {}::E {{ {}::E::A }}\n", t, d, d, d, d, d));
+        p.file(p3, "b_second.gom", &[], &text.replace("MKD", "mkd()").replace("MKE", "mke()"));
         p.file("Main", "main.gom", &[p3], &format!("fn main() {{\n    let _ = string_println(int32_to_string({}::g(1)));\n    ()\n}}\n", p3));
         out.push(Scenario { family: leak(format!("unimported-use-in-sibling-file:{}", form)), proj: p, expect: Expect::Reject });
         // 9c. positive control: the same text with the imports present
         let mut p = Proj::new();
         trait_pkg(&mut p, t, &[], "");
         type_pkg(&mut p, d, &[t], &impl_text(t, d, false, true, k));
-        p.file(p3, "a_first.gom", &[t, d], &format!("fn g(x: int32) -> int32 {{ {}::f(x) + {}::f(x) }}\nfn mkd() -> {}::S {{ {}::mk(1) }}\n", t, d, d, d));
-        p.file(p3, "b_second.gom", &[t, d], &text.replace("MKD", "mkd()"));
+        p.file(p3, "a_first.gom", &[t, d], &format!("fn g(x: int32) -> int32 {{ {}::f(x) + {}::f(x) }}\nfn mkd() -> {}::S {{ {}::mk(1) }}\nfn mke() -> {}::E {{ {}::E::A }}\n", t, d, d, d, d, d));
+        p.file(p3, "b_second.gom", &[t, d], &text.replace("MKD", "mkd()").replace("MKE", "mke()"));
         p.file("Main", "main.gom", &[p3], &format!("fn main() {{\n    let _ = string_println(int32_to_string({}::g(1)));\n    ()\n}}\n", p3));
         out.push(Scenario { family: leak(format!("imported-use-control:{}", form)), proj: p, expect: Expect::Accept("32\n".to_string()) });
     }
